@@ -2,7 +2,7 @@
    All statements are in the exact field Q(sqrt3, j) (Base/C11K.v) where a = exp(j*120deg) is an element: no oracle and
    no hypothesis about a is needed; ==k is component-wise equality. *)
 From Coq Require Import ZArith QArith List Bool.
-From PPV Require Import Base.QN Base.QC Base.C11K C11.Model C11.Proofs.
+From PPV Require Import Base.QN Base.QC Base.C11K C11.Model C11.Proofs C11.Base3 C11.Base3Proofs C11.Zero C11.ZeroProofs.
 Import ListNotations.
 Open Scope Q_scope.
 
@@ -94,3 +94,200 @@ Proof. exact eg_current_old_partial. Qed.
 Print Assumptions C11_ext_grid_current_old_partial.
 Example C11_ext_grid_current_nonvacuous : G11_eg (mkC (3 # 4) (-15 # 4)) (mkC (3 # 4) (-15 # 4)) = true.
 Proof. reflexivity. Qed.
+
+(* ------------------------------------------------------------------------------------------------------------------
+   The one-third base of the pf_3ph branch rows (C11/Base3.v = build_branch.py as it is; proofs in C11/Base3Proofs.v).
+   The ppc of runpp_3ph carries baseMVA = net.sn_mva (the per-phase base power); its positive-sequence branch rows are
+   per unit on the three-phase base 3*sn_mva.  pf3ph = true is mode "pf_3ph", false is mode "pf" (runpp).
+   sqrt is an oracle input: the statements hold for ALL oracle values meeting the contract is_sqrt s x := 0 <= s /\ s*s == x. *)
+
+(* lines: the pf_3ph row at sn = s is the pf row at sn = 3*s, i.e. r, x three times and b, g one third of the pf row at s;
+   and the ohmic values recovered with the respective base (V^2/(3s) resp. V^2/s) are the sn-free physical values
+   r*l/parallel [ohm], x*l/parallel [ohm], 2*pi*f*c*1e-9*l*parallel [S], g*1e-6*l*parallel [S] *)
+Theorem C11_base_third_consistency_line : forall s f pi l,
+  line_row_eq (line_row_of true s f pi l) (line_row_of false (3 * s) f pi l) /\
+  (G11_line s l = true ->
+   (let r3 := line_row_of true s f pi l in let r1 := line_row_of false s f pi l in
+    lr_r r3 == 3 * lr_r r1 /\ lr_x r3 == 3 * lr_x r1 /\ lr_b r3 == lr_b r1 / 3 /\ lr_g r3 == lr_g r1 / 3) /\
+   (let v2 := l_basekv l * l_basekv l in
+    q4eq (line_ohm_of (v2 / (3 * s)) (line_row_of true s f pi l)) (line_ohm_spec f pi l) /\
+    q4eq (line_ohm_of (v2 / s) (line_row_of false s f pi l)) (line_ohm_spec f pi l))).
+Proof. exact base_third_line_all. Qed.
+Print Assumptions C11_base_third_consistency_line.
+Example C11_base_third_line_nonvacuous : G11_line 10 line_wit = true /\ ~ lr_r (line_row_of true 10 50 (355 # 113) line_wit) == 0 /\
+  ~ lr_b (line_row_of true 10 50 (355 # 113) line_wit) == 0 /\ ~ lr_g (line_row_of true 10 50 (355 # 113) line_wit) == 0.
+Proof. exact line_nonvacuous. Qed.
+
+(* two-winding transformers, the complete row written for trafo_model "t" (r, x, g, b, g_asym, b_asym after the T -> pi
+   conversion _wye_delta; incl. pfe/3, vnl^2/3, i0/3, the clamp of b_mva_squared and both sqrt calls):
+   the pf_3ph row at sn = s is the pf row at sn = 3*s (trow_scaled 1 = component-wise equality) *)
+Theorem C11_base_third_consistency : forall s t q sx3 sb3 sx1 sb1,
+  G11_trafo true s t q = true ->
+  is_sqrt sx3 (x_sqrt_arg true s t q) -> is_sqrt sx1 (x_sqrt_arg false (3 * s) t q) ->
+  is_sqrt sb3 (b_sqrt_arg true t) -> is_sqrt sb1 (b_sqrt_arg false t) ->
+  trow_scaled 1 (trafo_row_t true s t q sx3 sb3) (trafo_row_t false (3 * s) t q sx1 sb1).
+Proof. exact base_third_trafo_consistency. Qed.
+Print Assumptions C11_base_third_consistency.
+
+(* ... i.e. against the pf row at the same sn: impedances three times, admittances one third *)
+Theorem C11_base_third_scaling : forall s t q sx3 sb3 sx1 sb1,
+  G11_trafo true s t q = true ->
+  is_sqrt sx3 (x_sqrt_arg true s t q) -> is_sqrt sx1 (x_sqrt_arg false s t q) ->
+  is_sqrt sb3 (b_sqrt_arg true t) -> is_sqrt sb1 (b_sqrt_arg false t) ->
+  trow_scaled 3 (trafo_row_t true s t q sx3 sb3) (trafo_row_t false s t q sx1 sb1) /\
+  rxgb_scaled 3 (trafo_rxgb true s t q sx3 sb3) (trafo_rxgb false s t q sx1 sb1).
+Proof. exact base_third_trafo_scaling. Qed.
+Print Assumptions C11_base_third_scaling.
+
+(* sn-free ohmic specification: the values recovered from the rows with the base they were computed on
+   (zb3 = V^2/(3s) for pf_3ph, zb1 = V^2/s for pf) are  r = vkr/100 * vn_trafo_lv^2/sn_trafo/parallel [ohm] and
+   g = pfe/vn_trafo_lv^2 * parallel [S]  in both modes, and the recovered x [ohm] and b [S] of the two modes coincide *)
+Theorem C11_base_third_ohmic : forall s t q sx3 sb3 sx1 sb1,
+  G11_trafo true s t q = true ->
+  is_sqrt sx3 (x_sqrt_arg true s t q) -> is_sqrt sx1 (x_sqrt_arg false s t q) ->
+  is_sqrt sb3 (b_sqrt_arg true t) -> is_sqrt sb1 (b_sqrt_arg false t) ->
+  let zb3 := t_basekv_lv t * t_basekv_lv t / (3 * s) in let zb1 := t_basekv_lv t * t_basekv_lv t / s in
+  (trafo_r true s t q * zb3 == trafo_ohm_r t q /\ trafo_r false s t q * zb1 == trafo_ohm_r t q /\
+   trafo_g true s t q / zb3 == trafo_siemens_g t q /\ trafo_g false s t q / zb1 == trafo_siemens_g t q) /\
+  (trafo_x true s t q sx3 * zb3 == trafo_x false s t q sx1 * zb1 /\
+   trafo_b true s t q sb3 / zb3 == trafo_b false s t q sb1 / zb1).
+Proof. exact base_third_trafo_ohmic. Qed.
+Print Assumptions C11_base_third_ohmic.
+
+(* the T -> pi conversion itself is homogeneous of degree one: any base change by k commutes with it *)
+Theorem C11_wye_delta_base_change : forall k v' v rr xr, ~ k == 0 -> rxgb_scaled k v' v ->
+  trow_scaled k (wye_delta v' rr xr) (wye_delta v rr xr).
+Proof. exact wye_delta_homogeneous. Qed.
+Print Assumptions C11_wye_delta_base_change.
+
+(* the tapped voltage of a "Ratio" tap changer is |u1 + du| for every oracle value meeting the contract *)
+Theorem C11_tap_voltage : forall t q, is_sqrt q (tap_sqrt_arg t) -> q == Qabs.Qabs (tap_u1 t + tap_du t).
+Proof. exact tap_voltage_is_abs. Qed.
+Print Assumptions C11_tap_voltage.
+
+Example C11_base_third_nonvacuous :
+  let s := 1 in let t := trafo_wit in let q := 21 in
+  is_sqrt q (tap_sqrt_arg t) /\ G11_trafo true s t q = true /\ G11_trafo false s t q = true /\ G11_trafo false (3 * s) t q = true /\
+  is_sqrt (1323 # 200000) (x_sqrt_arg true s t q) /\ is_sqrt (441 # 200000) (x_sqrt_arg false s t q) /\
+  is_sqrt (1323 # 200000) (x_sqrt_arg false (3 * s) t q) /\
+  is_sqrt (8 # 3000) (b_sqrt_arg true t) /\ is_sqrt (8 # 1000) (b_sqrt_arg false t) /\
+  ~ tr_g (trafo_row_t true s t q (1323 # 200000) (8 # 3000)) == 0 /\ ~ tr_b (trafo_row_t true s t q (1323 # 200000) (8 # 3000)) == 0.
+Proof. exact trafo_nonvacuous. Qed.
+
+(* impedance elements: the series part of the pf_3ph row is on the base 3*s, the SHUNT part is not — the code multiplies
+   gf/bf/gt/bt by sn_factor = 3 where the base change needs the division (build_branch.py:1027-1030, under its own "todo"):
+   the row is a consistent base change only without shunt part; otherwise the shunt admittances are 3 times the pf values
+   instead of one third (9 times too large) *)
+Theorem C11_base_third_impedance_partial : forall s i, G11_imp_noshunt i = true ->
+  imp_row_scaled 3 (imp_row_of true s i) (imp_row_of false s i).
+Proof. exact imp_row_third_partial. Qed.
+Print Assumptions C11_base_third_impedance_partial.
+Theorem C11_base_third_impedance_refuted :
+  exists s i, ~ s == 0 /\ ~ i_sn i == 0 /\ ~ imp_row_scaled 3 (imp_row_of true s i) (imp_row_of false s i).
+Proof. exact imp_row_third_refuted. Qed.
+Print Assumptions C11_base_third_impedance_refuted.
+Theorem C11_base_third_impedance_faithful : forall s i,
+  let r3 := imp_row_of true s i in let r1 := imp_row_of false s i in
+  ir_g r3 == 3 * ir_g r1 /\ ir_b r3 == 3 * ir_b r1 /\ ir_g_asym r3 == 3 * ir_g_asym r1 /\ ir_b_asym r3 == 3 * ir_b_asym r1.
+Proof. exact imp_row_shunt_faithful. Qed.
+Print Assumptions C11_base_third_impedance_faithful.
+(* with the proposed repair (admittances divided by sn_factor) the impedance row is a consistent base change for all inputs *)
+Theorem C11_base_third_impedance_repaired : forall s i, imp_row_scaled 3 (imp_row_repaired true s i) (imp_row_repaired false s i).
+Proof. exact imp_row_third_repaired. Qed.
+Print Assumptions C11_base_third_impedance_repaired.
+Example C11_base_third_impedance_nonvacuous :
+  G11_imp_noshunt {| i_rft := 1 # 100; i_xft := 1 # 50; i_rtf := 1 # 100; i_xtf := 1 # 50; i_gf := 0; i_bf := 0; i_gt := 0; i_bt := 0; i_sn := 10 |} = true.
+Proof. reflexivity. Qed.
+
+(* ------------------------------------------------------------------------------------------------------------------
+   Zero-sequence transformer equivalents of runpp_3ph (C11/Zero.v = pd2ppc_zero.py:_add_trafo_sc_impedance_zero for the
+   vector groups YNyn, Dyn (and Yzn, correspondence only) in mode pf_3ph, followed by makeYbus.branch_vectors).
+   T equivalent of the documentation:  z1 = si0_hv_partial * z0 (hv leakage), z2 = (1 - si0_hv_partial) * z0 (lv leakage),
+   z3 = z_m0 (magnetising), D = z1 z2 + z2 z3 + z1 z3.  tap = TAP * exp(j*shift) is the ideal transformer at the hv side.
+   All statements are identities in the field Q(j) for ALL inputs under the listed non-degeneracy conditions. *)
+
+(* what z0 and z_m0 are: Re z0 = vkr0, |z0| = vk0 (per unit of the transformer rating, referred to the lv bus voltage level on
+   the base V^2/(3 sn)); in ohm |z0| = vk0/100 * vn_trafo_lv^2 / sn_trafo — free of net.sn_mva;  |z_m0| = mag0_percent * |z0|
+   (mag0_percent is the plain ratio z_mag0/z0),  Re z_m0 = mag0_rx * Im z_m0 *)
+Theorem C11_zero_seq_impedances : forall sn z q sx sm,
+  is_sqrt sx (z0_sqrt_arg sn z q) -> is_sqrt sm (mag_sqrt_arg z) ->
+  ~ z0_zsc sn z q == 0 -> ~ t_par (z_t z) == 0 -> ~ sm == 0 -> ~ sn == 0 -> ~ t_basekv_lv (z_t z) == 0 -> ~ t_sn (z_t z) == 0 ->
+  (re (z0_k sn z q sx) == z0_rsc sn z q / t_par (z_t z) /\
+   cnorm2 (z0_k sn z q sx) == (z0_zsc sn z q / t_par (z_t z)) * (z0_zsc sn z q / t_par (z_t z))) /\
+  (let zbase := t_basekv_lv (z_t z) * t_basekv_lv (z_t z) / (3 * sn) in
+   z0_zsc sn z q * zbase == vk0_eff z / 100 * (vn_trafo_lv (z_t z) q * vn_trafo_lv (z_t z) q) / t_sn (z_t z) /\
+   z0_rsc sn z q * zbase == vkr0_eff z / 100 * (vn_trafo_lv (z_t z) q * vn_trafo_lv (z_t z) q) / t_sn (z_t z)) /\
+  (re (z0_mag sn z q sm) == z_mag0_rx z * im (z0_mag sn z q sm) /\
+   cnorm2 (z0_mag sn z q sm) == (z_mag0 z * z0_zsc sn z q / t_par (z_t z)) * (z_mag0 z * z0_zsc sn z q / t_par (z_t z))).
+Proof. exact zero_seq_impedances. Qed.
+Print Assumptions C11_zero_seq_impedances.
+
+(* YNyn: the two-port that makeYbus stamps for the row is exactly the two-port of the T equivalent behind the ideal
+   transformer:  Y11 = (z2+z3)/D, Y12 = Y21 = -z3/D, Y22 = (z1+z3)/D *)
+Theorem C11_zero_seq_YNyn_two_port : forall sn bm z q sx sm e,
+  z_vg z = YNyn -> z_ins z = true ->
+  ~ sn == 0 -> ~ t_basekv_lv (z_t z) == 0 -> ~ t_basekv_hv (z_t z) == 0 ->
+  ~ vn_trafo_lv (z_t z) q == 0 -> ~ vn_trafo_hv (z_t z) q == 0 ->
+  let z0 := z0_k sn z q sx in let z1 := z1_of z z0 in let z2 := z2_of z z0 in let z3 := z0_mag sn z q sm in
+  let D := Dsum z1 z2 z3 in
+  ~ z1 ==c C0 -> ~ z2 ==c C0 -> ~ z3 ==c C0 -> ~ D ==c C0 ->
+  let r := zero_row sn bm z q sx sm in let s := branch_vectors r e in let tap := ctap r e in
+  ~ tap ==c C0 -> ~ Cconj tap ==c C0 ->
+  Cmul (Yff s) (Cmul tap (Cconj tap)) ==c Cdiv (Cadd z2 z3) D /\
+  Cmul (Yft s) (Cconj tap) ==c Copp (Cdiv z3 D) /\
+  Cmul (Ytf s) tap ==c Copp (Cdiv z3 D) /\
+  Ytt s ==c Cdiv (Cadd z1 z3) D.
+Proof. exact ynyn_two_port. Qed.
+Print Assumptions C11_zero_seq_YNyn_two_port.
+
+(* YNyn: impedance seen from hv (referred through the ideal transformer) with lv grounded is z1 + z2||z3, from lv with hv
+   grounded z2 + z1||z3  (stated as admittance * impedance = 1) *)
+Theorem C11_zero_seq_YNyn_short_circuit : forall sn bm z q sx sm e,
+  z_vg z = YNyn -> z_ins z = true ->
+  ~ sn == 0 -> ~ t_basekv_lv (z_t z) == 0 -> ~ t_basekv_hv (z_t z) == 0 ->
+  ~ vn_trafo_lv (z_t z) q == 0 -> ~ vn_trafo_hv (z_t z) q == 0 ->
+  let z0 := z0_k sn z q sx in let z1 := z1_of z z0 in let z2 := z2_of z z0 in let z3 := z0_mag sn z q sm in
+  let D := Dsum z1 z2 z3 in
+  ~ z1 ==c C0 -> ~ z2 ==c C0 -> ~ z3 ==c C0 -> ~ D ==c C0 -> ~ Cadd z2 z3 ==c C0 -> ~ Cadd z1 z3 ==c C0 ->
+  let r := zero_row sn bm z q sx sm in let s := branch_vectors r e in let tap := ctap r e in
+  ~ tap ==c C0 -> ~ Cconj tap ==c C0 ->
+  Cmul (Cmul (Yff s) (Cmul tap (Cconj tap))) (Cadd z1 (Cdiv (Cmul z2 z3) (Cadd z2 z3))) ==c C1 /\
+  Cmul (Ytt s) (Cadd z2 (Cdiv (Cmul z1 z3) (Cadd z1 z3))) ==c C1.
+Proof. exact ynyn_short_circuit. Qed.
+Print Assumptions C11_zero_seq_YNyn_short_circuit.
+
+(* Dyn: the hv side is open for the zero sequence — the only thing the row puts at the hv bus (and between the buses) is
+   the series impedance BIG*(1+j), BIG = 1e20*baseMVA, with no shunt; at the lv bus it adds the shunt admittance whose
+   impedance is z2 + z1||z3 (lv leakage in series with hv leakage parallel to the magnetising impedance: the delta winding
+   short-circuits the zero sequence) *)
+Theorem C11_zero_seq_Dyn : forall sn bm z q sx sm e,
+  z_vg z = Dyn -> z_ins z = true -> ~ bm == 0 ->
+  let z0 := z0_k sn z q sx in let z1 := z1_of z z0 in let z2 := z2_of z z0 in let z3 := z0_mag sn z q sm in
+  let D := Dsum z1 z2 z3 in
+  ~ z1 ==c C0 -> ~ z2 ==c C0 -> ~ z3 ==c C0 -> ~ D ==c C0 -> ~ Cadd z1 z3 ==c C0 ->
+  let r := zero_row sn bm z q sx sm in let s := branch_vectors r e in let tap := ctap r e in
+  ~ tap ==c C0 -> ~ Cconj tap ==c C0 ->
+  let Zbig := mkC (BIG bm) (BIG bm) in
+  Cmul (Cmul (Yff s) (Cmul tap (Cconj tap))) Zbig ==c C1 /\
+  Cmul (Cmul (Yft s) (Cconj tap)) Zbig ==c Copp C1 /\
+  Cmul (Cmul (Ytf s) tap) Zbig ==c Copp C1 /\
+  Cmul (Csub (Ytt s) (Cinv Zbig)) (Cadd z2 (Cdiv (Cmul z1 z3) (Cadd z1 z3))) ==c C1.
+Proof. exact dyn_two_port. Qed.
+Print Assumptions C11_zero_seq_Dyn.
+
+(* the factor (tap_lv/tap_hv)*TAP^2 in the YNyn hv shunt is 1: it only undoes the division by |tap|^2 of makeYbus *)
+Theorem C11_zero_seq_ratio_factor : forall sn z q,
+  ~ sn == 0 -> ~ t_basekv_lv (z_t z) == 0 -> ~ t_basekv_hv (z_t z) == 0 ->
+  ~ vn_trafo_lv (z_t z) q == 0 -> ~ vn_trafo_hv (z_t z) q == 0 ->
+  trafo_ratio (z_t z) q * trafo_ratio (z_t z) q * (ztap_lv sn z q / ztap_hv sn z q) == 1.
+Proof. exact ratio_factor. Qed.
+Print Assumptions C11_zero_seq_ratio_factor.
+
+Example C11_zero_seq_nonvacuous : forall vg, vg = Dyn \/ vg = YNyn ->
+  let z := zero_wit vg in let sn := 1 in let q := 21 in let sx := 1323 # 200000 in let sm := 5 # 4 in let e := mkC (-3 # 5) (4 # 5) in
+  G11_zero sn 1 z q sm = true /\ is_sqrt q (tap_sqrt_arg (z_t z)) /\ is_sqrt sx (z0_sqrt_arg sn z q) /\ is_sqrt sm (mag_sqrt_arg z) /\
+  cnorm2 e == 1 /\
+  let z0 := z0_k sn z q sx in let z1 := z1_of z z0 in let z2 := z2_of z z0 in let z3 := z0_mag sn z q sm in
+  ~ z1 ==c C0 /\ ~ z2 ==c C0 /\ ~ z3 ==c C0 /\ ~ Dsum z1 z2 z3 ==c C0 /\ ~ Cadd z2 z3 ==c C0 /\ ~ Cadd z1 z3 ==c C0 /\
+  let r := zero_row sn 1 z q sx sm in ~ ctap r e ==c C0 /\ ~ Cconj (ctap r e) ==c C0.
+Proof. exact zero_nonvacuous. Qed.
